@@ -8,6 +8,7 @@ from .. import lib, ref
 from ..ref import Graph
 
 LEVEL = "exploration"
+TECHNIQUE = 'runtime monitoring: every public graph query compared with an adjacency-set reference model; exhaustive over all structures with <=12 lattice edges x all cells x all ordered pairs, random structures to 15x15 incl. oblong, valid/broken/out-of-bounds/empty candidate paths'
 RULE = ("nodes_connected, get_coord_neighbors, coord_degrees, gen_connected_component_from, is_valid_path, get_nodes, as_adj_list / "
         "connection_list_to_adj_list (all shuffle flags), is_connection, from_adj_list(as_adj_list), lattice_connection_array, "
         "lattice_max_degrees, manhattan_distance, solution forking / path-following points compared with an adjacency-set model: "
